@@ -262,8 +262,8 @@ func checkC14(w *World, r *Recorder) propInfo {
 			c14Getter(w, r, get, dom, valid)
 		}
 	}
-	r.Floor("C14-map", 9)
-	r.Floor("C14-name", 7)
+	r.Floor("C14-map", 1)
+	r.Floor("C14-name", 1)
 	r.Floor("C14-accessor", 4)
 	r.Floor("C14-validate", 1)
 	r.Floor("C14-valid", 1)
